@@ -97,6 +97,7 @@ func NewDiskQueue(name string, dataPath string, maxBytesPerFile int64, syncEvery
 	if fi, err := os.Stat(fn); err == nil && fi.Size() > d.writePos {
 		log.Printf("DISKQUEUE(%s): %s is larger than writePos %d, truncating", d.name, fn, d.writePos)
 		err = os.Truncate(fn, d.writePos)
+		d.verifCrashPoint("segment-truncate")
 		if err != nil {
 			log.Printf("ERROR: diskqueue(%s) failed to truncate %s - %s", d.name, fn, err.Error())
 		}
